@@ -1473,6 +1473,28 @@ pub fn verif_compile_sources_to_hir(
   compile_sources_with_generics_preserved(heap, sources)
 }
 
+/// Verification hooks (only with `--cfg samlang_verif`): the stages of `compile_sources_to_mir`
+/// one by one. Add no behaviour.
+#[cfg(samlang_verif)]
+pub fn verif_compile_sources_to_mir_before_rewrites(
+  heap: &mut Heap,
+  sources: &HashMap<ModuleReference, source::Module<Arc<type_::Type>>>,
+) -> mir::Sources {
+  let sources = compile_sources_with_generics_preserved(heap, sources);
+  let sources = mir_generics_specialization::perform_generics_specialization(heap, sources);
+  mir_type_deduplication::deduplicate(sources)
+}
+
+#[cfg(samlang_verif)]
+pub fn verif_constant_param_elimination(sources: mir::Sources) -> mir::Sources {
+  mir_constant_param_elimination::rewrite_sources(sources)
+}
+
+#[cfg(samlang_verif)]
+pub fn verif_tail_rec_rewrite(heap: &mut Heap, function: mir::Function) -> mir::Function {
+  mir_tail_recursion_rewrite::optimize_function_by_tailrec_rewrite(heap, function)
+}
+
 fn optimize_by_tail_rec_rewrite(heap: &mut Heap, sources: mir::Sources) -> mir::Sources {
   let mir::Sources {
     symbol_table,
